@@ -37,12 +37,14 @@ def shape_case(drv, case, prop, cached=False):
     tb = encode_text(case['text'], case.get('enc', 4))
     try:
         r = drv.call(b'S' + struct.pack('<IBB', fid, src, opts) + shape_params(tb, enc=case.get('enc', 4), dir=case.get('dir', 0), ppm=case.get('ppm', 0.0),
-                     feats=[tuple(x) for x in case.get('feats', [])], check_gid=bool(case.get('check_gid')), dump=False, query_all=True, all_sub=bool(case.get('all_sub'))), timeout=60)
+                     feats=[tuple(x) for x in case.get('feats', [])], check_gid=bool(case.get('check_gid')), dump=False, query_all=True, all_sub=bool(case.get('all_sub'))), timeout=60 if case.get('confirm_hang') else 15)
     except DriverCrash as e:
         if prop == 'C02':
             raise Violation('sanitizer:' + e.kind + ':' + e.summary, case, e.stderr[-1500:])
         return dict(crash=e.kind + ':' + e.summary, labels=[])
     except DriverHang:
+        if prop == 'C02' and not case.get('confirm_hang'):
+            raise fw.Hang(case)          # not shrunk (every step would cost a watchdog period); confirmed afterwards, alone
         if prop == 'C02':
             # confirmation: alone, 60 s limit, three times
             n = 0
@@ -58,7 +60,7 @@ def shape_case(drv, case, prop, cached=False):
                 finally:
                     d2.kill()
             if n == 3:
-                raise Violation('does-not-return', case, 'gr_make_seg exceeded 60 s three times (typical case: milliseconds)')
+                raise Violation('does-not-return', dict((k, v) for k, v in case.items() if k != 'confirm_hang'), 'gr_make_seg exceeded 60 s three times (typical case: milliseconds)')
         raise Inconclusive()
     if 'error' in r:
         raise Inconclusive()
@@ -85,6 +87,8 @@ def judge(drv, case, prop, ctx=None):
 
 
 def replay_case(prop, case):
+    if case.get('kind') == 'sweep':
+        return replay_sweep(prop, case)
     if case.get('kind') == 'bin':
         res = fuzzrun.replay_bin(prop, 'fz_shape', case['path'], report=prop)
         if res and res[0] == prop:
@@ -92,7 +96,12 @@ def replay_case(prop, case):
         return
     drv = Driver()
     try:
-        judge(drv, case, prop)
+        try:
+            judge(drv, case, prop)
+        except fw.Hang:
+            drv.kill()
+            drv = Driver()
+            judge(drv, dict(case, confirm_hang=True), prop)
     finally:
         drv.kill()
 
@@ -144,12 +153,18 @@ def worker(ctx, prop):
 
     def make_wild(deco):
         @deco
-        @given(wildgen.wild_case(max_len=ctx.n(16, 32)))
+        @given(wildgen.wild_case(max_len=ctx.n(16, 32), attach_bias=4 if prop == 'C04' else 1))
         def t(wc):
+            if ctx.abort_chunk:
+                return
             for pr in wc['probes']:
                 case = dict(kind='spec', spec=wc['spec'], text=pr['text'], dir=pr['dir'], enc=pr['enc'], ppm=pr['ppm'], feats=pr['feats'], check_gid=False,
                             opts=(len(pr['text']) * 3 + pr['dir']) % 8)
-                r, other = judge(drv, case, prop, ctx)
+                try:
+                    r, other = judge(drv, case, prop, ctx)
+                except fw.Hang:
+                    ctx.hang(case)
+                    return
                 count(case, r, other)
         return t
 
@@ -166,6 +181,8 @@ def worker(ctx, prop):
         @deco
         @given(st.data())
         def t(data):
+            if ctx.abort_chunk:
+                return
             f = data.draw(st.sampled_from(names))
             txt = [c for c in data.draw(fonts.text_strategy(sup[f], 0, ctx.n(24, 64))) if c]
             if prop == 'C02' and txt and data.draw(st.integers(0, ctx.n(60, 12))) == 0:
@@ -173,7 +190,11 @@ def worker(ctx, prop):
                 txt = (txt * (ctx.n(512, 4096) // len(txt) + 1))[:ctx.n(512, 4096)]
             case = dict(kind='shipped', font=f, text=txt, dir=data.draw(st.integers(0, 7)), enc=data.draw(st.sampled_from([1, 2, 4])),
                         ppm=data.draw(st.sampled_from([0.0, 0.0, 14.0, -15.0])), check_gid=True)
-            r, other = judge(drv, case, prop, ctx)
+            try:
+                r, other = judge(drv, case, prop, ctx)
+            except fw.Hang:
+                ctx.hang(case)
+                return
             count(case, r, other)
         return t
 
@@ -188,6 +209,95 @@ def worker(ctx, prop):
             ctx.report(Violation('sanitizer-at-exit:' + e.kind + ':' + e.summary, dict(kind='exit'), e.stderr[-1500:]))
         else:
             rec.other['C02:at-exit:' + e.summary] = 1
+
+
+SWEEP_RULE = (' Deterministic engine (enum_face sweep + shape): every single-site boundary corruption (7 byte values, +-1, 8 word values) of the tables of the synthesised seed fonts; '
+              'each corrupted font the loader accepts is shaped with the font\'s own probe texts (UTF-32, both directions, unhinted / hinted / NULL font) under the same oracle; non-trivial there: a rule fired.')
+
+
+def sweep_texts(font):
+    """probe texts for a synthesised seed font: its stored probes, plus every mapped character in glyph order (twice)"""
+    j = font[:-4] + '.json'
+    texts = []
+    if os.path.exists(j):
+        c = json.load(open(j))
+        texts = [p['text'] for p in c.get('probes', []) if p.get('text')][:2]
+        cps = sorted(int(k) for k in c['spec'].get('cmap', {}))
+        if cps:
+            texts.append((cps + cps)[:16])
+    return texts[:3]
+
+
+def sweep_case_cmd(case):
+    b = bytes.fromhex(case['bytes'])
+    off = int.from_bytes(b[0:4], 'little'); val = int.from_bytes(b[4:8], 'little')
+    return ['one', case['font'], off, val, b[8], b[9], b[10], case.get('shape') or 'shape']
+
+
+def replay_sweep(prop, case):
+    from enumrun import run_enum
+    res, crash = run_enum('enum_face', sweep_case_cmd(case), timeout=200)
+    if crash:
+        if prop != 'C02':
+            return
+        if crash['kind'] == 'timeout' or 'HANG' in crash.get('stderr', ''):
+            raise Violation('does-not-return', case, crash['stderr'][-800:])
+        raise Violation('sanitizer:' + crash['kind'] + ':' + crash['summary'], case, crash['stderr'][-1500:])
+    for label in (res or {}).get('fails', {}):
+        if label.startswith(prop + ':'):
+            raise Violation(label[4:], case, '')
+
+
+def sweep_shape(ctx, prop, tier, workers):
+    """Deterministic engine: every single-site boundary corruption (enum_face sweep) of the synthesised seed fonts that the
+    loader ACCEPTS is shaped with the font's own probe texts; judged by the same invariants / sanitizers."""
+    from enumrun import run_enum
+    from concurrent.futures import ThreadPoolExecutor
+    fs = sorted(glob.glob(os.path.join(CORPUS, 'synth', '*.ttf')))
+    if tier == 'quick':
+        fs = fs[::3]
+    jobs = []
+    for f in fs:
+        tx = sweep_texts(f)
+        arg = 'shape=' + ';'.join(','.join('%x' % c for c in t) for t in tx) if tx else 'shape'
+        nparts = 2 if tier == 'quick' else 1
+        k = (ctx.seed + len(jobs)) % nparts
+        jobs.append((f, arg, ['sweep', f, k, nparts, arg]))
+    with ThreadPoolExecutor(max_workers=workers) as ex:
+        results = list(ex.map(lambda j: (j, run_enum('enum_face', j[2], timeout=3000)), jobs))
+    m = fw.merge([])
+    rp = lambda c: replay_sweep(prop, c)
+    budget = [2]          # violations confirmed (3x replay each) per run; further sweep jobs that fail are only counted
+
+    def report(v):
+        if budget[0] > 0:
+            budget[0] -= 1
+            ctx.report(v, rp)
+        else:
+            m['classes']['sweep_further_failing_jobs_not_replayed'] = m['classes'].get('sweep_further_failing_jobs_not_replayed', 0) + 1
+    for (font, arg, _), (res, crash) in results:
+        if crash and crash['kind'] != 'timeout':
+            case = dict(crash['case'] or {}, kind='sweep', font=font, shape=arg)
+            if prop == 'C02':
+                label = 'does-not-return' if 'HANG' in crash['stderr'] else 'sanitizer:' + crash['kind'] + ':' + crash['summary']
+                report(Violation(label, case, crash['stderr'][-1500:]))
+            else:
+                m['other']['C02:' + crash['summary']] = m['other'].get('C02:' + crash['summary'], 0) + 1
+        elif crash:
+            m['inconclusive'] += 1
+        if res:
+            m['evaluations'] += res['shaped']
+            m['classes']['sweep_corrupted_fonts_accepted_and_shaped'] = m['classes'].get('sweep_corrupted_fonts_accepted_and_shaped', 0) + res['loaded']
+            m['classes']['sweep_shapings_with_rules_fired'] = m['classes'].get('sweep_shapings_with_rules_fired', 0) + res['shaped_fired']
+            m['nt_sweep'] = m.get('nt_sweep', 0) + res['shaped_fired']
+            for label, info in res['fails'].items():
+                p, l = label.split(':', 1)
+                if p == prop:
+                    report(Violation(l, dict(info['first'], kind='sweep', font=font, shape=arg), 'count=%d' % info['count']))
+                else:
+                    m['other'][label] = m['other'].get(label, 0) + info['count']
+    m['samples'].append(dict(engine='sweep+shape', font='corpus/synth/003.ttf', offset=412, value='0x7FFF', width=2, texts=sweep_texts(fs[1]) if len(fs) > 1 else None))
+    return m
 
 
 def main(prop, modname, tier, seed, workers, rule, assumptions, fuzz_ignore=()):
@@ -205,6 +315,7 @@ def main(prop, modname, tier, seed, workers, rule, assumptions, fuzz_ignore=()):
             ctx.report(v, lambda c: replay_case(prop, c))
         except Inconclusive:
             pass
+    sm = sweep_shape(ctx, prop, tier, workers)
     secs = 35 if tier == 'quick' else 600
     fz = fuzzrun.campaign(prop, 'fz_shape', os.path.join(CORPUS, 'fz_shape'), secs, workers, seed, report=prop, ignore=list(fuzz_ignore))
     fm = fw.merge([])
@@ -222,9 +333,10 @@ def main(prop, modname, tier, seed, workers, rule, assumptions, fuzz_ignore=()):
         else:
             fm['other'][v['prop'] + ':' + v['label']] = fm['other'].get(v['prop'] + ':' + v['label'], 0) + 1
     pm = fw.run_workers(modname, prop, tier, seed, workers, 40 if tier == 'quick' else 600)
-    mm = fw.merge([dict(ctx.rec.dump(), error=None), dict(fm, nontrivial=sorted(fm['nontrivial']), error=None), dict(pm, nontrivial=sorted(pm['nontrivial']), error=None)])
+    mm = fw.merge([dict(ctx.rec.dump(), error=None), dict(sm, nontrivial=[], error=None), dict(fm, nontrivial=sorted(fm['nontrivial']), error=None), dict(pm, nontrivial=sorted(pm['nontrivial']), error=None)])
+    mm['nontrivial'] = len(mm['nontrivial']) + sm.get('nt_sweep', 0)     # sweep cases are distinct (offset, value, text) triples by construction
     mm['errors'] = pm['errors']
     if fz['stats'].get('execs', 0) < 1000:
         mm['errors'].append('fuzz campaign executed fewer than 1000 inputs (see work/%s/fz_fz_shape/log)' % prop)
-    fw.write_evidence(prop, tier, seed, 'exploration', mm, rule, time.time() - t0, assumptions, extra=dict(fuzz_wall_s=round(fz['wall'], 1)))
+    fw.write_evidence(prop, tier, seed, 'exploration', mm, rule + SWEEP_RULE, time.time() - t0, assumptions, extra=dict(fuzz_wall_s=round(fz['wall'], 1)))
     return fw.finish(prop, mm, fw.load_known())
